@@ -19,6 +19,9 @@ pub enum Ans {
     Hard,
     /// non-retryable failure for this one call; later calls are accepted again
     HardOnce,
+    /// `ErrorKind::WouldBlock` for this one call (what a non-blocking sink says): like every error other than
+    /// `Interrupted` it must fail the write - a writer that retries it must not re-send what was already accepted
+    WouldBlockOnce,
 }
 
 struct ScriptedSink<'a> {
@@ -58,6 +61,7 @@ impl Write for ScriptedSink<'_> {
                 Err(Error::new(ErrorKind::Other, "injected hard failure"))
             }
             Some(Ans::HardOnce) => Err(Error::new(ErrorKind::Other, "injected hard failure (this call only)")),
+            Some(Ans::WouldBlockOnce) => Err(Error::new(ErrorKind::WouldBlock, "would block (this call only)")),
         }
     }
     fn flush(&mut self) -> std::io::Result<()> {
@@ -99,6 +103,7 @@ fn ans_json(a: &Ans) -> Value {
         Ans::Interrupted => json!("interrupted"),
         Ans::Hard => json!("hard-error"),
         Ans::HardOnce => json!("hard-error-once"),
+        Ans::WouldBlockOnce => json!("would-block-once"),
     }
 }
 fn ans_from(v: &Value) -> Ans {
@@ -109,6 +114,7 @@ fn ans_from(v: &Value) -> Ans {
             "ok0" => Ans::Zero,
             "interrupted" => Ans::Interrupted,
             "hard-error-once" => Ans::HardOnce,
+            "would-block-once" => Ans::WouldBlockOnce,
             _ => Ans::Hard,
         }
     }
@@ -134,7 +140,7 @@ fn check(lines: &[Line], mapping: &[u8], canonical: &[u8], script: &[(usize, Ans
         }
     };
     acc.observations += 1;
-    let fatal = script.iter().any(|(_, a)| matches!(a, Ans::Hard | Ans::HardOnce | Ans::Zero));
+    let fatal = script.iter().any(|(_, a)| matches!(a, Ans::Hard | Ans::HardOnce | Ans::WouldBlockOnce | Ans::Zero));
     let is_prefix = canonical.starts_with(&run.accepted);
     acc.outcome(h64(&(run.ok, run.accepted.len(), run.calls.len())), !script.is_empty() || limit > 0);
     if run.ok && run.accepted != canonical {
@@ -179,6 +185,7 @@ fn alternatives(len: usize) -> Vec<Ans> {
     v.push(Ans::Interrupted);
     v.push(Ans::Hard);
     v.push(Ans::HardOnce);
+    v.push(Ans::WouldBlockOnce);
     v
 }
 
@@ -318,8 +325,8 @@ pub fn run(tier: Tier) -> i32 {
         prop: "C15",
         tier,
         level: "fault_enumeration",
-        rule: format!("{} mappings (each padding site exercised / not exercised, 0 classes) x all sink scripts with <= {} deviations from 'accept everything' (per call: accept 1, 2, 3, len-3, len-2 or len-1 bytes; Ok(0); Interrupted; sticky hard error; hard error for that one call only), enumerated by run-record-branch to completion, plus {} big subjects (147 / 300 / 2340 / 2341 classes) with deviation bound 1; plus uniform sinks accepting at most k = 1..16, 37, 4095..4097, 65535, 65536 bytes per call with and without a hard failure in the middle. Oracle: Ok => accepted bytes == canonical; hard failure or Ok(0) injected => Err; accepted bytes always a prefix of canonical; short writes / Interrupted alone never make the write fail. Bursts of 2 / 99 / 100 / 101 / 1000 consecutive Interrupted answers at every call. The sink implements write_vectored natively (a gathered request counts as one call). evaluations = scripts executed; distinct = distinct (result, accepted length, number of calls)", nsmall, bound, nsub - nsmall),
-        bounds: json!({"mappings": nsub, "deviation_bound": bound, "alternatives_per_call": "short(1,2,3,len-1), Ok(0), Interrupted, hard (sticky), hard (once)"}),
+        rule: format!("{} mappings (each padding site exercised / not exercised, 0 classes) x all sink scripts with <= {} deviations from 'accept everything' (per call: accept 1, 2, 3, len-3, len-2 or len-1 bytes; Ok(0); Interrupted; sticky hard error; hard error for that one call only; WouldBlock for that one call only), enumerated by run-record-branch to completion, plus {} big subjects (147 / 300 / 2340 / 2341 classes) with deviation bound 1; plus uniform sinks accepting at most k = 1..16, 37, 4095..4097, 65535, 65536 bytes per call with and without a hard failure in the middle. Oracle: Ok => accepted bytes == canonical; hard failure or Ok(0) injected => Err; accepted bytes always a prefix of canonical; short writes / Interrupted alone never make the write fail. Bursts of 2 / 99 / 100 / 101 / 1000 consecutive Interrupted answers at every call. The sink implements write_vectored natively (a gathered request counts as one call). evaluations = scripts executed; distinct = distinct (result, accepted length, number of calls)", nsmall, bound, nsub - nsmall),
+        bounds: json!({"mappings": nsub, "deviation_bound": bound, "alternatives_per_call": "short(1,2,3,len-3..len-1), Ok(0), Interrupted, hard (sticky), hard (once), WouldBlock (once)"}),
         assumptions: vec!["canonical = the bytes the same build writes into a Vec".into(), "Ok(0) on a non-empty buffer counts as a non-retryable failure (std::io::Write::write_all reports WriteZero)".into()],
         trusted_base: vec!["rustc/std".into(), "the scripted sink in pgmc/src/props/c15.rs".into()],
     };
